@@ -27,6 +27,7 @@ func Run(m *mon.M) {
 	m.Require("maxdist.edge.through_antipode", 2000)
 	m.Require("children.checked", 5000)
 	m.Stream("structure", m.N(15000, 600000), structure)
+	m.Stream("bounds.vertices", m.N(1600000, 16000000), boundsVertices)
 	m.Stream("point", m.N(40000, 2000000), pointTarget)
 	m.Stream("edge", m.N(20000, 1000000), edgeTarget)
 	m.Stream("cell", m.N(12000, 600000), cellTarget)
@@ -167,6 +168,43 @@ func structure(c *mon.Case) {
 }
 
 // trueDistToBoundary: squared chord distance from p to the nearest of the four boundary geodesics.
+// boundsVertices: the four vertices of a cell are points of the cell, so RectBound and CapBound contain them
+// exactly as the library evaluates them (LatLngFromPoint of the vertex; Cap.ContainsPoint). Bulk stream: a
+// cell, its edge neighbours and its children per case, two thirds of them on the polar faces above 57 degrees
+// of latitude, where one ulp of latitude is a whole 2^-52.
+func boundsVertices(c *mon.Case) {
+	r := c.R
+	p := gen.Uniform(r)
+	if r.Intn(3) != 0 {
+		pole := s2.PointFromCoords(0, 0, float64(1-2*r.Intn(2)))
+		p = gen.Near(r, pole, 0.57*r.Float64())
+	}
+	id := s2.CellFromPoint(p).ID().Parent(1 + r.Intn(30))
+	en := id.EdgeNeighbors()
+	ids := append([]s2.CellID{id}, en[:]...)
+	if !id.IsLeaf() {
+		ch := id.Children()
+		ids = append(ids, ch[:]...)
+	}
+	for _, x := range ids {
+		cell := s2.CellFromCellID(x)
+		rb, cb := cell.RectBound(), cell.CapBound()
+		c.Count("bounds.cells_with_all_vertices_checked", 1)
+		for k := 0; k < 4; k++ {
+			v := cell.Vertex(k)
+			if !rb.ContainsLatLng(s2.LatLngFromPoint(v)) {
+				c.Violation("RectBound/misses-cell-vertex/wrong-answer", fmt.Sprintf("vertex %d of cell %s lies outside the cell's RectBound", k, x.ToToken()), map[string]any{"cell": x.ToToken(), "vertex": gen.Hex(v), "level": x.Level()})
+				return
+			}
+			if !cb.ContainsPoint(v) {
+				c.Violation("CapBound/misses-cell-vertex/wrong-answer", fmt.Sprintf("vertex %d of cell %s lies outside the cell's CapBound", k, x.ToToken()), map[string]any{"cell": x.ToToken(), "vertex": gen.Hex(v), "level": x.Level()})
+				return
+			}
+		}
+	}
+	c.Distinct(uint64(id))
+}
+
 func trueDistToBoundary(c s2.Cell, p s2.Point) float64 {
 	best := math.Inf(1)
 	for k := 0; k < 4; k++ {
